@@ -111,9 +111,12 @@ def build_cpp(src, flags=None, tag="san", extra_deps=()):
         # drop stale binaries of the same harness/tag
         base = os.path.basename(out).rsplit(".", 1)[0]
         for fn in os.listdir(BUILD):
-            if fn.startswith(base + ".") and os.path.join(BUILD, fn) != out and ".tmp" not in fn and not fn.endswith(".lock"):
+            fp = os.path.join(BUILD, fn)
+            # another run (different QENTEM_REPO) may be about to execute its own binary: drop only old ones
+            if fn.startswith(base + ".") and fp != out and ".tmp" not in fn and not fn.endswith(".lock") \
+                    and time.time() - os.path.getmtime(fp) > 7200:
                 try:
-                    os.remove(os.path.join(BUILD, fn))
+                    os.remove(fp)
                 except OSError:
                     pass
     return out, ""
@@ -132,10 +135,10 @@ def classify_fault(rc, err):
         return "ubsan:" + re.sub(r"0x[0-9a-f]+", "ADDR", m.group(1)).strip().replace(" ", "_")[:60]
     if "LeakSanitizer" in err:
         return "lsan:leak"
-    if rc is not None and rc < 0:
-        return "signal:%d" % (-rc)
     if rc == "timeout":
         return "timeout"
+    if isinstance(rc, int) and rc < 0:
+        return "signal:%d" % (-rc)
     return "exit:%s" % rc
 
 
@@ -349,6 +352,12 @@ class Ctx:
         return not self.proof_broken
 
     def build_driver(self):
+        # the driver links every area's model, so every area's generated constants must exist
+        from . import constants
+        for a in constants.area_names():
+            ok, msg = constants.generate(a)
+            if not ok:
+                self.infra_errors.append("constants(%s): %s" % (a, msg[-800:]))
         r = lake(["build", "qdriver"])
         if r.returncode != 0:
             self.infra_errors.append("qdriver build failed: " + r.stdout[-3000:])
